@@ -259,7 +259,10 @@ def apply(text, log, extra_subs=()):
             return mm.expand(rep) + '\n' * mm.group(0).count('\n')
         t2, n = re.subn(rx, _keep_lines, t)
         if n == 0:
-            raise KeyError('unit substitution matched nothing: %s' % rx)
+            # A substitution only massages syntax Verus cannot take; if the text is gone (the code changed) there is
+            # nothing to massage.  Not an error: an error here would turn a code change into "undecided".
+            log.append(('Rsub-nomatch', rx, '(pattern not present in the current source)'))
+            continue
         log.append(('Rsub', rx, rep + ('  # ' + why if why else '')))
         t = t2
     # R12: wildcard closure parameter `|_|` -> `|_e|` (Verus supports only variable patterns there)
